@@ -64,6 +64,7 @@ type State struct {
 	useOld   bool
 	steps    int
 	freshErrs []string
+	freshRefs []string
 	protected []string // refs of non-escaping local allocations (survive havoc-all)
 }
 
@@ -89,6 +90,7 @@ func (st *State) fork() *State {
 	n.trail = append([]string(nil), st.trail...)
 	n.protected = append([]string(nil), st.protected...)
 	n.freshErrs = append([]string(nil), st.freshErrs...)
+	n.freshRefs = append([]string(nil), st.freshRefs...)
 	n.frames = make([]*Frame, len(st.frames))
 	for i, f := range st.frames {
 		g := *f
@@ -287,7 +289,7 @@ func (st *State) subObj(ref, key string) string {
 		key2 := "fb:" + t
 		if !st.declSet[key2] {
 			st.declSet[key2] = true
-			st.assume(eq("(fld_base "+t+")", ref))
+			st.assume(and(eq("(fld_base "+t+")", ref), eq("(obj_root "+t+")", "(obj_root "+ref+")")))
 		}
 	}
 	return t
@@ -295,7 +297,7 @@ func (st *State) subObj(ref, key string) string {
 
 func (st *State) loadStruct(ref string, t types.Type) *Val {
 	s := structFields(t)
-	v := &Val{T: t}
+	v := &Val{T: t, Tm: ref} // Tm of a struct loaded from memory = its address
 	for i := 0; i < s.NumFields(); i++ {
 		v.Fs = append(v.Fs, st.loadField(ref, t, i))
 	}
